@@ -1,3 +1,4 @@
+import RedactVerif.Props.TransPP
 import RedactVerif.Proofs.Plain
 import RedactVerif.Proofs.Lab
 import RedactVerif.Props.C02
